@@ -41,7 +41,9 @@ def image(n):
 
 # what the device puts behind the 4-byte header: free text (fastboot packets are at most 64 bytes)
 TEXTS = [None, '', '100% full', 'battery at 15%', '%s', '%d items', 'a%%b', '%', '{0} {name}', 'line1\nline2', 'x' * 60, 'caf\xe9',
-         'OKAY', 'FAILED: not allowed', ' leading and trailing ']
+         'OKAY', 'FAILED: not allowed', ' leading and trailing ', 'bootmode: recovery', 'bootmode:a:b', 'slot: b']
+# FastbootDevice's own helper on top of oem: "Get bootconfig, either as full dict or specific value for key"
+BOOTCONFIG = ['bootconfig', 'bootmode']
 
 
 def packets_of(seq, size, texts=None):
@@ -90,6 +92,19 @@ def reference(kind, seq, size, texts=None):
       else:
         return ('exc', 'FastbootInvalidResponseError', '')
 
+  if kind == 'bootconfig':
+    # get_boot_config(name): 'key: value' lines of the answer are collected (a text without a colon is no such line); the
+    # value reported for `name`, else the OKAY payload
+    res = accept('OKAY')
+    if res[0] == 'ok':
+      table = {}
+      for line in infos + [res[1]]:
+        if line and ':' in line:
+          k, v = line.split(':', 1)
+          table[k.strip()] = v.strip()
+      if BOOTCONFIG[1] in table:
+        res = ('ok', table[BOOTCONFIG[1]])
+    return dict(result=res, infos=infos, image_sent=False)
   if kind != 'download':
     res = accept('OKAY')
     return dict(result=res, infos=infos, image_sent=False)
@@ -174,6 +189,9 @@ def check(case):
       elif name == 'reboot_bootloader':
         got = ('ok', fc.reboot_bootloader())
         exp_packet = 'reboot-bootloader'
+      elif name == 'bootconfig':
+        got = ('ok', fc.get_boot_config(arg))
+        exp_packet = 'oem bootconfig %s' % arg
       else:
         got = ('ok', fc.continue_())
         exp_packet = 'continue'
@@ -183,7 +201,7 @@ def check(case):
     arg = case['cmd'][1] if len(case['cmd']) > 1 else None
     exp_packet = {'download': 'download:%08x' % size, 'getvar': 'getvar:%s' % arg, 'oem': 'oem %s' % arg, 'erase': 'erase:%s' % arg,
                   'flash': 'flash:%s' % arg, 'reboot': 'reboot' if arg is None else 'reboot:%s' % arg,
-                  'reboot_bootloader': 'reboot-bootloader', 'continue_': 'continue'}[name]
+                  'reboot_bootloader': 'reboot-bootloader', 'continue_': 'continue', 'bootconfig': 'oem bootconfig %s' % arg}[name]
   ref = reference(kind, case['seq'], size, case.get('texts'))
   uses_info_cb = kind in ('download', 'getvar', 'oem', 'flash')
   # command packet
@@ -255,6 +273,9 @@ def exhaustive_cases(maxlen):
         yield {'cmd': cmd, 'seq': list(seq), 'progress': 'none'}
         if n <= 2:
           yield {'cmd': cmd, 'seq': list(seq), 'progress': 'none', 'via': 'device'}
+      if n and n <= 3 and not any(x.startswith('DATA') for x in seq):
+        for rot in range(0, len(TEXTS), 2):
+          yield {'cmd': BOOTCONFIG, 'seq': list(seq), 'progress': 'none', 'via': 'device', 'texts': [TEXTS[(rot + 5 * j) % len(TEXTS)] for j in range(n)]}
         if n and 'DATA=' not in seq and 'DATA!' not in seq and 'DATA?' not in seq:
           # the same reply sequence with device-chosen texts, rotated through TEXTS
           rot = (ci + 3 * n + sum(map(len, seq))) % len(TEXTS)
@@ -280,6 +301,8 @@ def drawn_cases(draw):
             'cb_kind': draw(st.sampled_from(CB_KINDS)), 'texts': texts}
   if draw(st.integers(0, 3)) == 0:
     case['via'] = 'device'
+    if case['cmd'][0] != 'download' and draw(st.booleans()):
+      case['cmd'] = BOOTCONFIG
   return case
 
 
